@@ -259,7 +259,10 @@ func genFixedCase(t *rapid.T) *FixedCase {
 		c.A = rapid.Uint64().Draw(t, "ts")
 		c.HasOffset = genBool(t, "hasoffset")
 		if c.HasOffset {
-			c.Offset = rapid.OneOf(rapid.Int64(), rapid.SampledFrom([]int64{0, 1, -1, 1 << 32, -(1 << 32), 1<<63 - 1, -1 << 63})).Draw(t, "offset")
+			c.Offset = rapid.OneOf(rapid.Int64(), rapid.SampledFrom([]int64{0, 1, -1, 1 << 32, -(1 << 32), 1<<63 - 1, -1 << 63}),
+				// whole seconds in Q32.32 (low word zero), either sign
+				rapid.Map(rapid.Int64Range(-(1<<31), 1<<31-1), func(s int64) int64 { return s << 32 }),
+				rapid.Map(rapid.Int64Range(-20, 20), func(s int64) int64 { return s << 32 })).Draw(t, "offset")
 		}
 	}
 	if genBool(t, "decode") {
